@@ -380,7 +380,7 @@ def oracle_expr(case, mode, obs):
     if k == 'lay':
         return 'holds_lay %s %s %s' % (z(case['flen']), _meta(case), o)
     if k == 'inv':
-        return 'holds_inv %s %s' % (_ops(case), o)
+        return 'holds_inv %s %s && holds_inv_close %s %s' % (_ops(case), o, _ops(case), o)
     if k == 'runner':
         return 'holds_runner %s %s %s %s' % (_cfg(case), _bools(case['pre']), _witems(case['w']), o)
     if k == 'thr':
